@@ -6,31 +6,20 @@ destinations that accept every value (the harness passes `Unmarshaler`s that rec
 value decoders themselves — Model/CrashValue.lean — are out of the picture here, except
 unmarshalTuple's own field splitting which runs before the element destinations are reached).
 
-Iter.Scan has NO recover: a `panic(error)` raised by framer.readInt (fewer than 4 bytes left) and
-every run-time panic escape into the application goroutine that called Scan.
-
-`fx = false`: the code as it is. `fx = true`: with props/C05.fix-4.diff (readBytesInternal checks the
-4 length bytes itself), fix-5 (scanColumn checks `len(dest)`), fix-6 (marshal.go readBytes checks the
-field length) applied.
+Iter.Scan has NO recover: any panic raised below it escapes into the application goroutine that called
+Scan. The model describes the code AFTER the repairs of KF-C05-10 (readBytesInternal returns an error
+when fewer than 4 bytes are left instead of letting framer.readInt `panic(error)`), KF-C05-11 (scanColumn
+returns an error when no destination is left, `len(dest) == 0`) and KF-C05-12 (marshal.go readBytes
+returns an error when the field length exceeds the cell).
 -/
 namespace RowsCrash
 open FrameCrash
 
 inductive RSite
-  | readIntShort   -- framer.readInt: `panic(error)` with < 4 bytes left, not recovered by Iter.Scan   (KNOWN)
-  | destIndex      -- scanColumn: `dest[0]` on an empty `dest[i:]` (column list ends in 0-element tuples) (KNOWN)
-  | tupleField     -- marshal.go readBytes: `p[:size]`/`p[size:]` with a field length beyond the cell  (KNOWN)
   | destSlice      -- scanColumn: `dest[:count]` / Iter.Scan: `dest[i:]`   (proved in bounds)
 deriving DecidableEq, Repr
 
-def RSite.known : RSite → Bool
-  | .destSlice => false
-  | _ => true
-
 def RSite.label : RSite → String
-  | .readIntShort => "readInt:panic"
-  | .destIndex => "scanColumn:index"
-  | .tupleField => "readBytes:slice"
   | .destSlice => "scanColumn:slice"
 
 inductive Step (α : Type)
@@ -39,27 +28,27 @@ inductive Step (α : Type)
   | crash (s : RSite)
 
 /-- unmarshalTuple's `[]interface{}` loop: `if len(data) >= 4 { p, data = readBytes(data) }` per element -/
-def tupleCell (fx : Bool) : Nat → Bytes → Step Unit
+def tupleCell : Nat → Bytes → Step Unit
   | 0, _ => .ok ()
   | k+1, data =>
-    if data.length < 4 then tupleCell fx k data
+    if data.length < 4 then tupleCell k data
     else
       let size := signed32 (be (data.take 4))
       let p := data.drop 4
-      if size < 0 then tupleCell fx k p
-      else if p.length < size.toNat then (if fx then .err else .crash .tupleField)
-      else tupleCell fx k (p.drop size.toNat)
+      if size < 0 then tupleCell k p
+      else if p.length < size.toNat then .err   -- readBytes: "unexpected eof"
+      else tupleCell k (p.drop size.toNat)
 
 def width : TI → Nat
   | .tuple es => es.length
   | _ => 1
 
 /-- the column loop of one Iter.Scan call: `i` = position in dest, `n` = len(dest) -/
-def scanCols (fx : Bool) (n : Nat) : List TI → Nat → Bytes → Step Bytes
+def scanCols (n : Nat) : List TI → Nat → Bytes → Step Bytes
   | [], _, buf => .ok buf
   | col :: rest, i, buf =>
     -- readColumn = readBytesInternal
-    if buf.length < 4 then (if fx then .err else .crash .readIntShort)
+    if buf.length < 4 then .err   -- readBytesInternal: "not enough bytes in buffer to read bytes length"
     else
       let size := signed32 (be (buf.take 4))
       let b1 := buf.drop 4
@@ -69,17 +58,17 @@ def scanCols (fx : Bool) (n : Nat) : List TI → Nat → Bytes → Step Bytes
         let b2 := if size < 0 then b1 else b1.drop size.toNat
         -- scanColumn(colBytes, col, dest[i:])
         if n < i then .crash .destSlice
-        else if n ≤ i then (if fx then .err else .crash .destIndex)
+        else if n ≤ i then .err   -- scanColumn: `len(dest) == 0`
         else
           match col with
           | .tuple es =>
             if n < i + es.length then .crash .destSlice
             else
-              match tupleCell fx es.length (cell.getD []) with
-              | .ok _ => scanCols fx n rest (i + es.length) b2
+              match tupleCell es.length (cell.getD []) with
+              | .ok _ => scanCols n rest (i + es.length) b2
               | .err => .err
               | .crash s => .crash s
-          | _ => scanCols fx n rest (i + 1) b2
+          | _ => scanCols n rest (i + 1) b2
 
 inductive ROut
   | ok (rows : Nat)
@@ -97,13 +86,13 @@ columns makes Scan return true 2^31 times without reading anything) -/
 def rowCap : Nat := 20000
 
 /-- `for iter.Scan(dest...) {}` : `todo` rows left, `done` rows scanned -/
-def scanLoop (fx : Bool) (cols : List TI) (n : Nat) : Nat → Nat → Bytes → ROut
+def scanLoop (cols : List TI) (n : Nat) : Nat → Nat → Bytes → ROut
   | 0, done, _ => .ok done
   | todo+1, done, buf =>
     if done ≥ rowCap then .capped
     else
-      match scanCols fx n cols 0 buf with
-      | .ok b => scanLoop fx cols n todo (done + 1) b
+      match scanCols n cols 0 buf with
+      | .ok b => scanLoop cols n todo (done + 1) b
       | .err => .err done
       | .crash s => .crash s
 
@@ -115,9 +104,33 @@ def destLen (m : Meta) : Nat :=
 columns): it then passes none and Scan reports the count mismatch as an error -/
 def destCap : Nat := 65536
 
-def scanAll (fx : Bool) (m : Meta) (numRows : Nat) (rest : Bytes) : ROut :=
+def scanAll (m : Meta) (numRows : Nat) (rest : Bytes) : ROut :=
   if destLen m > destCap then (if numRows = 0 then .ok 0 else .err 0)
-  else scanLoop fx m.cols (destLen m) numRows 0 rest
+  else scanLoop m.cols (destLen m) numRows 0 rest
+
+/-! ### allocation of the row consumers (Scan loops, Scanner, MapScan, SliceMap, RowData)
+
+None of them allocates from the ANNOUNCED row count: what a consumer allocates is per row it actually
+scans (one destination slot / map entry / value per destination, `destLen`) plus the cell bytes it
+copies. The model's allocation counter is in those units; the number of rows scanned is bounded by the
+bytes of the row set (every described column costs at least its 4-byte length: Proofs/C05Rows.lean
+`rows_scanned_le_body`), whatever `numRows` says. -/
+
+/-- rows a consumer got through (the row an error occurred in not counted) -/
+def ROut.rows : ROut → Nat
+  | .ok k => k
+  | .capped => rowCap
+  | .err k => k
+  | .crash _ => 0
+
+/-- allocation counter of a row consumer, in units: per row scanned (plus the one an error ends in) one
+unit per destination and one for the row itself, plus the bytes of the row set -/
+def consumeUnits (m : Meta) (numRows : Nat) (rest : Bytes) : Nat :=
+  ((scanAll m numRows rest).rows + 1) * (destLen m + 1) + rest.length
+
+/-- the bound, a function of the received bytes and the described destinations only -/
+def consumeBound (m : Meta) (rest : Bytes) : Nat :=
+  (rest.length / 4 + 1) * (destLen m + 1) + rest.length
 
 /-! ### Iter.RowData (the destinations of MapScan / SliceMap): helpers.go goType
 
@@ -228,21 +241,21 @@ def nativeCollection : TI → Bool
 
 /-- parse a RESULT frame body and, when it is a ROWS result, iterate it as conn.executeQuery +
 `for iter.Scan(dest...) {}` do; `none` when the frame is not a ROWS result (or does not parse) -/
-def iterate (fx : Bool) (proto flags : Nat) (body : Bytes) : Option ROut :=
-  match parseFrame fx proto true flags 8 body with
-  | .ok (.rows m n) st => some (scanAll fx m n st.buf)
+def iterate (proto flags : Nat) (body : Bytes) : Option ROut :=
+  match parseFrame proto true flags 8 body with
+  | .ok (.rows m n) st => some (scanAll m n st.buf)
   | _ => none
 
 /-- the same before /repo commit c637d3e (no Comparable guard) and before 8351452 is NOT modelled; this
 is the current parser with the old goType, enough to replay the finding's witnesses -/
 def newRowOld (proto flags : Nat) (body : Bytes) : Option RD :=
-  match parseFrame false proto true flags 8 body with
+  match parseFrame proto true flags 8 body with
   | .ok (.rows m _) _ => some (rowDataG false m.cols 0)
   | _ => none
 
 /-- parse a RESULT frame body and, when it is a ROWS result, build MapScan's destinations -/
-def newRow (fx : Bool) (proto flags : Nat) (body : Bytes) : Option RD :=
-  match parseFrame fx proto true flags 8 body with
+def newRow (proto flags : Nat) (body : Bytes) : Option RD :=
+  match parseFrame proto true flags 8 body with
   | .ok (.rows m _) _ => some (rowData m.cols 0)
   | _ => none
 
